@@ -238,6 +238,53 @@ def op_persist(st, o):
     return "reloaded"
 
 
+@op("S.load_bad")
+def op_load_bad(st, o):
+    """load_subregions from a side-car that belongs to another (larger) mesh: its first
+    entries fit this mesh, a later one sticks out. The load is refused and the previous
+    subregions are kept (C14: rejected attachment keeps the previous ones)."""
+    h = st.h[o["on"]]
+    if h.kind != "M":
+        return "skipped"
+    mm = h.box.v
+    nd = mm.region.ndim
+    ax = o["ax"] % nd
+    pmin = [float(x) for x in mm.region.pmin]
+    pmax = [float(x) for x in mm.region.pmax]
+    cell = [float(c) for c in mm.cell]
+    good = ("left", list(pmin), [a + c for a, c in zip(pmin, cell)])
+    b1, b2 = list(pmin), [a + c for a, c in zip(pmin, cell)]
+    b1[ax], b2[ax] = pmax[ax] - cell[ax], pmax[ax] + cell[ax]
+    entries = [good] * 0 + [good, ("outside", b1, b2)]
+    if o.get("good_names"):
+        # entries with the names the mesh already uses come first: a partial load would replace them
+        entries = [(nm, good[1], good[2]) for nm in [k for k, _ in mm.subs][:1]] + entries
+    big = st.df.Region(p1=[a - 2 * c for a, c in zip(pmin, cell)], p2=[b + 2 * c for b, c in zip(pmax, cell)], dims=list(mm.region.dims), units=list(mm.region.units))
+    res = sut(lambda: st.df.Mesh(region=big, n=[k + 4 for k in mm.n], subregions=_regions(st.df, mm, entries)))
+    if res.raised:
+        return "skipped"  # rounding of the enlarged lattice: not this op's business
+    if st.fs is None:
+        from .simfs import SimFS
+
+        st.fs = SimFS(st.df)
+    base = st.fs.path(f"foreign{st.nsteps}.omf")
+    if sut(res.v.save_subregions, base).raised:
+        return "skipped"
+    st.stats.fault("foreign_sidecar")
+    res = sut(h.obj.load_subregions, base)
+    st.stats.oracle("F")
+    if not res.raised:
+        raise Violation("reject.accepted", f"load_subregions accepted a side-car with a subregion sticking out of the mesh {mm!r}", preds=["load"], kind="F")
+    try:
+        st.check_refines(o["on"], h)
+        st.check_invariants(o["on"], h)
+    except Violation as v:
+        raise Violation("reject.modified", f"load_subregions raised {type(res.e).__name__} but the previous subregions were not kept: {v.message}", preds=["load"], kind="F") from None
+    st.stats.probe("refused_sidecar_load")
+    st.extra["just_rejected"] = o["on"]
+    return "rejected"
+
+
 @op("S.aligned")
 def op_aligned(st, o):
     """Two meshes are reported aligned exactly when their cell sizes agree and their
